@@ -480,4 +480,675 @@ theorem writePerTx_old_items (s : Store) (n : Nat) (hs txs rcs : List Bytes) (hl
     simp only [List.cons.injEq] at heq
     exact hb9 heq.1
 
+/-! ### frames: which keys a step of the migration touches -/
+
+theorem isPrefix_iff_append : ∀ (p k : Bytes), isPrefix p k = true → ∃ x, k = p ++ x
+  | [], k, _ => ⟨k, rfl⟩
+  | a :: p, [], h => by simp [isPrefix] at h
+  | a :: p, c :: ks, h => by
+    simp only [isPrefix, Bool.and_eq_true, beq_iff_eq] at h
+    obtain ⟨x, rfl⟩ := isPrefix_iff_append p ks h.2
+    exact ⟨x, by rw [UInt8.toNat_inj.mp h.1]; rfl⟩
+
+theorem get_put (s : Store) (k v k' : Bytes) : (s.put k v).get k' = if k = k' then some v else s.get k' := by
+  by_cases h : k = k'
+  · subst h; simp [Store.put, Store.get]
+  · have : (k == k') = false := by simpa using h
+    simp [Store.put, Store.get, this, h]
+
+theorem putAll_append (s : Store) : ∀ (a b : List (Bytes × Bytes)), s.putAll (a ++ b) = (s.putAll a).putAll b
+  | [], b => rfl
+  | (k, v) :: a, b => by simp [Store.putAll, putAll_append (s.put k v) a b]
+
+theorem in_range_prefixed (b lo hi n : Nat) (x : Bytes) (hlo : lo < 18446744073709551616)
+    (hhi : hi < 18446744073709551616) (hn : n < 18446744073709551616) :
+    (bytesLeq (keyByNumber b lo) (prefixNum b n ++ x) && bytesLt (prefixNum b n ++ x) (keyByNumber b hi)) =
+      decide (lo ≤ n ∧ n < hi) := by
+  have len : ∀ m, (prefixNum b n).length = (keyByNumber b m).length := by
+    intro m; simp [prefixNum, keyByNumber, dbKey, be_length]
+  have e1 : bytesLt (prefixNum b n ++ x) (keyByNumber b lo) = bytesLt (keyByNumber b n) (keyByNumber b lo) := by
+    have := bytesLt_append_eq_len (prefixNum b n) (keyByNumber b lo) x [] (len lo)
+    rw [List.append_nil] at this
+    rw [this, bytesLt_nil_right]
+    simp [prefixNum, keyByNumber]
+  have e2 : bytesLt (prefixNum b n ++ x) (keyByNumber b hi) = bytesLt (keyByNumber b n) (keyByNumber b hi) := by
+    have := bytesLt_append_eq_len (prefixNum b n) (keyByNumber b hi) x [] (len hi)
+    rw [List.append_nil] at this
+    rw [this, bytesLt_nil_right]
+    simp [prefixNum, keyByNumber]
+  simp only [bytesLeq, e1, e2, bytesLt_keyByNumber b n lo hn hlo, bytesLt_keyByNumber b n hi hn hhi]
+  by_cases h1 : n < lo <;> by_cases h2 : n < hi <;> simp [h1, h2] <;> omega
+
+theorem prefixNum_dbKey (b n : Nat) (x : Bytes) : prefixNum b n ++ x = dbKey b (be 8 n ++ x) := by
+  simp [prefixNum, dbKey]
+
+theorem get_deleteOldRange_prefixed (s : Store) (b : Nat) (hb : b = bTxsByNumIdx ∨ b = bRcsByNumIdx) (lo hi n : Nat) (x : Bytes)
+    (hlo : lo < 18446744073709551616) (hhi : hi + 1 < 18446744073709551616) (hn : n < 18446744073709551616) :
+    (deleteOldRange s lo hi).get (prefixNum b n ++ x) = if lo ≤ n ∧ n ≤ hi then none else s.get (prefixNum b n ++ x) := by
+  have hm : (hi + 1) % twoP64 = hi + 1 := Nat.mod_eq_of_lt (by unfold twoP64; omega)
+  simp only [deleteOldRange, hm]
+  rcases hb with rfl | rfl
+  · rw [prefixNum_dbKey, get_delRangeByNumber_other _ bRcsByNumIdx bTxsByNumIdx _ _ _ (by decide) (by decide) (by decide),
+      ← prefixNum_dbKey, delRangeByNumber, get_delRange, in_range_prefixed _ lo (hi + 1) n x hlo hhi hn]
+    by_cases h : lo ≤ n ∧ n ≤ hi
+    · have : lo ≤ n ∧ n < hi + 1 := by omega
+      simp [h, this]
+    · have : ¬ (lo ≤ n ∧ n < hi + 1) := by omega
+      simp [h, this]
+  · rw [delRangeByNumber, get_delRange, in_range_prefixed _ lo (hi + 1) n x hlo hhi hn]
+    by_cases h : lo ≤ n ∧ n ≤ hi
+    · have : lo ≤ n ∧ n < hi + 1 := by omega
+      simp [h, this]
+    · have : ¬ (lo ≤ n ∧ n < hi + 1) := by omega
+      simp only [h, this, decide_false, Bool.false_eq_true, if_false]
+      rw [prefixNum_dbKey, get_delRangeByNumber_other _ bTxsByNumIdx bRcsByNumIdx _ _ _ (by decide) (by decide) (by decide)]
+
+theorem get_deleteOldRange_other (s : Store) (b' lo hi : Nat) (suf : Bytes) (hb' : b' < 256)
+    (h10 : b' ≠ bTxsByNumIdx) (h11 : b' ≠ bRcsByNumIdx) :
+    (deleteOldRange s lo hi).get (dbKey b' suf) = s.get (dbKey b' suf) := by
+  simp only [deleteOldRange]
+  rw [get_delRangeByNumber_other _ bRcsByNumIdx b' _ _ suf (by decide) hb' (fun h => h11 h.symm),
+    get_delRangeByNumber_other _ bTxsByNumIdx b' _ _ suf (by decide) hb' (fun h => h10 h.symm)]
+
+theorem get_deleteOldRange_mono (s : Store) (lo hi : Nat) (k : Bytes) :
+    (deleteOldRange s lo hi).get k = none ∨ (deleteOldRange s lo hi).get k = s.get k := by
+  simp only [deleteOldRange, delRangeByNumber, get_delRange]
+  split
+  · left; rfl
+  · split
+    · left; rfl
+    · right; rfl
+
+/-! ### one pass of the migration over a database with old, already migrated and empty blocks -/
+
+/-- What the database holds for block `n` before the pass: `D n = some (txs, rcs)` — the
+per-transaction layout with exactly these items, a header whose count agrees, no combined entry;
+`D n = none` — already migrated (no old entries, the combined entry present). -/
+def BlockState (txCount : Bytes → Option Nat) (D : Nat → Option (List Bytes × List Bytes)) (s : Store) (n : Nat) : Prop :=
+  ∃ hb c, getHeaderByNumber s n = some hb ∧ txCount hb = some c ∧ c < 9223372036854775808 ∧
+    match D n with
+    | some (txs, rcs) => OldItems s bTxsByNumIdx n txs ∧ OldItems s bRcsByNumIdx n rcs ∧ txs.length = c ∧ rcs.length = c ∧
+        getBlobByNumber s n = none
+    | none => OldItems s bTxsByNumIdx n [] ∧ OldItems s bRcsByNumIdx n [] ∧ (getBlobByNumber s n).isSome = true
+
+/-- `s'` holds for block `n` what `s` holds (header, combined entry, everything under its two old prefixes). -/
+def SameBlock (s s' : Store) (n : Nat) : Prop :=
+  getHeaderByNumber s' n = getHeaderByNumber s n ∧ getBlobByNumber s' n = getBlobByNumber s n ∧
+  (∀ x, s'.get (prefixNum bTxsByNumIdx n ++ x) = s.get (prefixNum bTxsByNumIdx n ++ x)) ∧
+  (∀ x, s'.get (prefixNum bRcsByNumIdx n ++ x) = s.get (prefixNum bRcsByNumIdx n ++ x))
+
+theorem SameBlock.refl (s : Store) (n : Nat) : SameBlock s s n := ⟨rfl, rfl, fun _ => rfl, fun _ => rfl⟩
+
+theorem SameBlock.trans {s s1 s2 : Store} {n : Nat} (h1 : SameBlock s s1 n) (h2 : SameBlock s1 s2 n) : SameBlock s s2 n :=
+  ⟨h2.1.trans h1.1, h2.2.1.trans h1.2.1, fun x => (h2.2.2.1 x).trans (h1.2.2.1 x), fun x => (h2.2.2.2 x).trans (h1.2.2.2 x)⟩
+
+theorem OldItems_congr (s s' : Store) (b n : Nat) (vals : List Bytes)
+    (h : ∀ x, s'.get (prefixNum b n ++ x) = s.get (prefixNum b n ++ x)) (ho : OldItems s b n vals) : OldItems s' b n vals := by
+  constructor
+  · intro i hi
+    rw [keyNumIdx_eq, h, ← keyNumIdx_eq]
+    exact ho.1 i hi
+  · intro k hp hg
+    obtain ⟨x, rfl⟩ := isPrefix_iff_append _ _ hp
+    rw [h] at hg
+    exact ho.2 _ hp hg
+
+theorem BlockState_congr (txCount : Bytes → Option Nat) (D : Nat → Option (List Bytes × List Bytes)) (s s' : Store) (n : Nat)
+    (hs : SameBlock s s' n) (h : BlockState txCount D s n) : BlockState txCount D s' n := by
+  obtain ⟨hb, c, h1, h2, h3, h4⟩ := h
+  refine ⟨hb, c, by rw [hs.1]; exact h1, h2, h3, ?_⟩
+  cases hD : D n with
+  | none =>
+    simp only [hD] at h4 ⊢
+    exact ⟨OldItems_congr s s' _ n _ hs.2.2.1 h4.1, OldItems_congr s s' _ n _ hs.2.2.2 h4.2.1, by rw [hs.2.1]; exact h4.2.2⟩
+  | some p =>
+    obtain ⟨txs, rcs⟩ := p
+    simp only [hD] at h4 ⊢
+    exact ⟨OldItems_congr s s' _ n _ hs.2.2.1 h4.1, OldItems_congr s s' _ n _ hs.2.2.2 h4.2.1, h4.2.2.1, h4.2.2.2.1,
+      by rw [hs.2.1]; exact h4.2.2.2.2⟩
+
+def newBlob (D : Nat → Option (List Bytes × List Bytes)) (n : Nat) : Option Bytes :=
+  (D n).map fun p => (Blob.build encRaw encRaw p.1 p.2).marshal
+
+/-- The combined entries one block / a run of blocks adds. -/
+def blobPut (D : Nat → Option (List Bytes × List Bytes)) (n : Nat) : List (Bytes × Bytes) :=
+  match newBlob D n with
+  | some b => [(keyBlockTransactions n, b)]
+  | none => []
+
+def blobPuts (D : Nat → Option (List Bytes × List Bytes)) : Nat → Nat → List (Bytes × Bytes)
+  | _, 0 => []
+  | n, k + 1 => blobPut D n ++ blobPuts D (n + 1) k
+
+theorem ingestBlock_state (txCount : Bytes → Option Nat) (D : Nat → Option (List Bytes × List Bytes)) (s : Store) (n : Nat)
+    (h : BlockState txCount D s n) : ingestBlock txCount s n = .ok (s.putAll (blobPut D n)) := by
+  obtain ⟨hb, c, h1, h2, h3, h4⟩ := h
+  cases hD : D n with
+  | none =>
+    simp only [hD] at h4
+    obtain ⟨blob, hbl⟩ := Option.isSome_iff_exists.mp h4.2.2
+    rw [ingestBlock_already_migrated txCount s n c hb blob h1 h2 h4.1 h4.2.1 hbl]
+    simp [blobPut, newBlob, hD, Store.putAll]
+  | some p =>
+    obtain ⟨txs, rcs⟩ := p
+    simp only [hD] at h4
+    rw [ingestBlock_old txCount s n c txs rcs hb h1 h2 h3 h4.1 h4.2.1 h4.2.2.1 h4.2.2.2.1 h4.2.2.2.2]
+    simp [blobPut, newBlob, hD, Store.putAll]
+
+theorem mem_blobPuts (D : Nat → Option (List Bytes × List Bytes)) : ∀ (k n : Nat) (e : Bytes × Bytes),
+    e ∈ blobPuts D n k → ∃ m b, n ≤ m ∧ m < n + k ∧ newBlob D m = some b ∧ e = (keyBlockTransactions m, b)
+  | 0, _, e, h => by simp [blobPuts] at h
+  | k + 1, n, e, h => by
+    simp only [blobPuts, List.mem_append] at h
+    rcases h with h | h
+    · unfold blobPut at h
+      cases hb : newBlob D n with
+      | none => simp [hb] at h
+      | some b =>
+        simp only [hb, List.mem_singleton] at h
+        exact ⟨n, b, by omega, by omega, hb, h⟩
+    · obtain ⟨m, b, h1, h2, h3, h4⟩ := mem_blobPuts D k (n + 1) e h
+      exact ⟨m, b, by omega, by omega, h3, h4⟩
+
+/-- Combined entries of OTHER blocks do not touch what block `n` holds. -/
+theorem sameBlock_putAll (s : Store) (es : List (Bytes × Bytes)) (n : Nat) (hn : n < 18446744073709551616)
+    (h : ∀ e ∈ es, ∃ m, m ≠ n ∧ m < 18446744073709551616 ∧ e.1 = keyBlockTransactions m) : SameBlock s (s.putAll es) n := by
+  refine ⟨?_, ?_, ?_, ?_⟩
+  · apply get_putAll_other
+    intro e he heq
+    obtain ⟨m, _, _, hk⟩ := h e he
+    rw [hk] at heq
+    simp [keyBlockTransactions, keyByNumber, dbKey, bBlockTransactions, bBlockHeadersByNumber] at heq
+  · apply get_putAll_other
+    intro e he heq
+    obtain ⟨m, hne, hm, hk⟩ := h e he
+    rw [hk] at heq
+    exact hne (keyBlockTransactions_inj m n hm hn heq)
+  · intro x
+    apply get_putAll_other
+    intro e he heq
+    obtain ⟨m, _, _, hk⟩ := h e he
+    rw [hk] at heq
+    simp [keyBlockTransactions, prefixNum, dbKey, bBlockTransactions, bTxsByNumIdx] at heq
+  · intro x
+    apply get_putAll_other
+    intro e he heq
+    obtain ⟨m, _, _, hk⟩ := h e he
+    rw [hk] at heq
+    simp [keyBlockTransactions, prefixNum, dbKey, bBlockTransactions, bRcsByNumIdx] at heq
+
+theorem ingestFrom_state (txCount : Bytes → Option Nat) (D : Nat → Option (List Bytes × List Bytes)) :
+    ∀ (k n : Nat) (s : Store), n + k ≤ 18446744073709551616 →
+      (∀ m, n ≤ m → m < n + k → BlockState txCount D s m) →
+      ingestFrom txCount s n k = .ok (s.putAll (blobPuts D n k))
+  | 0, _, s, _, _ => by simp [ingestFrom, blobPuts, Store.putAll]
+  | k + 1, n, s, hb, h => by
+    simp only [ingestFrom, ingestBlock_state txCount D s n (h n (by omega) (by omega)), Res.bind, blobPuts, putAll_append]
+    apply ingestFrom_state txCount D k (n + 1) _ (by omega)
+    intro m h1 h2
+    apply BlockState_congr txCount D s _ m _ (h m (by omega) (by omega))
+    apply sameBlock_putAll s _ m (by omega)
+    intro e he
+    unfold blobPut at he
+    cases hbn : newBlob D n with
+    | none => simp [hbn] at he
+    | some b =>
+      simp only [hbn, List.mem_singleton] at he
+      exact ⟨n, by omega, by omega, by rw [he]⟩
+
+/-- What a pass over the blocks `lo … hi` leaves, relative to the store it started from. -/
+structure PassPost (D : Nat → Option (List Bytes × List Bytes)) (s s' : Store) (lo hi : Nat) : Prop where
+  /-- an old block's combined entry is the blob built from its raw items; an already migrated one keeps its entry -/
+  blob : ∀ n, lo ≤ n → n ≤ hi → getBlobByNumber s' n = (match newBlob D n with | some b => some b | none => getBlobByNumber s n)
+  /-- nothing is left under the blocks' old prefixes -/
+  gone : ∀ n, lo ≤ n → n ≤ hi → ∀ b, (b = bTxsByNumIdx ∨ b = bRcsByNumIdx) → ∀ x, s'.get (prefixNum b n ++ x) = none
+  /-- blocks outside the range are as they were -/
+  same : ∀ n, n < 18446744073709551616 → (n < lo ∨ hi < n) → SameBlock s s' n
+  /-- every other bucket is as it was -/
+  other : ∀ b' suf, b' < 256 → b' ≠ bTxsByNumIdx → b' ≠ bRcsByNumIdx → b' ≠ bBlockTransactions →
+    s'.get (dbKey b' suf) = s.get (dbKey b' suf)
+  /-- nothing appears in the old buckets -/
+  mono : ∀ b suf, (b = bTxsByNumIdx ∨ b = bRcsByNumIdx) → s'.get (dbKey b suf) = none ∨ s'.get (dbKey b suf) = s.get (dbKey b suf)
+
+theorem mem_blobPuts_of (D : Nat → Option (List Bytes × List Bytes)) : ∀ (k n m : Nat) (b : Bytes),
+    n ≤ m → m < n + k → newBlob D m = some b → (keyBlockTransactions m, b) ∈ blobPuts D n k
+  | 0, n, m, b, h1, h2, _ => by omega
+  | k + 1, n, m, b, h1, h2, h3 => by
+    simp only [blobPuts, List.mem_append]
+    by_cases hm : m = n
+    · subst hm
+      left
+      simp [blobPut, h3]
+    · right
+      exact mem_blobPuts_of D k (n + 1) m b (by omega) (by omega) h3
+
+theorem blobPuts_keys (D : Nat → Option (List Bytes × List Bytes)) (k n : Nat) (e : Bytes × Bytes) (he : e ∈ blobPuts D n k) :
+    ∃ suf, e.1 = dbKey bBlockTransactions suf := by
+  obtain ⟨m, b, _, _, _, rfl⟩ := mem_blobPuts D k n e he
+  exact ⟨_, rfl⟩
+
+theorem range_post (txCount : Bytes → Option Nat) (D : Nat → Option (List Bytes × List Bytes)) (s : Store) (lo hi : Nat)
+    (hlh : lo ≤ hi) (hh : hi + 1 < 18446744073709551616) :
+    PassPost D s (deleteOldRange (s.putAll (blobPuts D lo (hi + 1 - lo))) lo hi) lo hi := by
+  have hne40 : ∀ (b' : Nat) (suf : Bytes) (e : Bytes × Bytes), b' < 256 → b' ≠ bBlockTransactions →
+      e ∈ blobPuts D lo (hi + 1 - lo) → e.1 ≠ dbKey b' suf := by
+    intro b' suf e hb' hne he heq
+    obtain ⟨suf', hk⟩ := blobPuts_keys D _ _ e he
+    rw [hk] at heq
+    simp only [dbKey, List.cons.injEq] at heq
+    have := congrArg UInt8.toNat heq.1
+    rw [u8_toNat_ofNat _ (by decide), u8_toNat_ofNat _ hb'] at this
+    exact hne this.symm
+  have sameOut : ∀ n, n < 18446744073709551616 → (n < lo ∨ hi < n) → SameBlock s (s.putAll (blobPuts D lo (hi + 1 - lo))) n := by
+    intro n hn hout
+    apply sameBlock_putAll s _ n hn
+    intro e he
+    obtain ⟨m, b, h1, h2, _, rfl⟩ := mem_blobPuts D _ _ e he
+    exact ⟨m, by omega, by omega, rfl⟩
+  constructor
+  · intro n h1 h2
+    have : getBlobByNumber (deleteOldRange (s.putAll (blobPuts D lo (hi + 1 - lo))) lo hi) n =
+        (s.putAll (blobPuts D lo (hi + 1 - lo))).get (keyBlockTransactions n) := by
+      simp only [getBlobByNumber, keyBlockTransactions]
+      exact get_deleteOldRange_other _ bBlockTransactions lo hi _ (by decide) (by decide) (by decide)
+    rw [this]
+    cases hb : newBlob D n with
+    | some b =>
+      simp only
+      apply get_putAll_mem _ _ _ _ (mem_blobPuts_of D _ lo n b h1 (by omega) hb)
+      intro v' hv'
+      obtain ⟨m, b', _, h4, h5, h6⟩ := mem_blobPuts D _ _ _ hv'
+      simp only [Prod.mk.injEq] at h6
+      have : n = m := keyBlockTransactions_inj n m (by omega) (by omega) h6.1
+      subst this
+      rw [hb] at h5
+      rw [h6.2]; exact (Option.some.inj h5).symm
+    | none =>
+      simp only [getBlobByNumber]
+      apply get_putAll_other
+      intro e he heq
+      obtain ⟨m, b', _, h4, h5, rfl⟩ := mem_blobPuts D _ _ e he
+      have : m = n := keyBlockTransactions_inj m n (by omega) (by omega) heq
+      subst this
+      rw [hb] at h5; exact absurd h5 (by simp)
+  · intro n h1 h2 b hb x
+    rw [get_deleteOldRange_prefixed _ b hb lo hi n x (by omega) hh (by omega)]
+    simp [h1, h2]
+  · intro n hn hout
+    apply (sameOut n hn hout).trans
+    refine ⟨?_, ?_, ?_, ?_⟩
+    · simp only [getHeaderByNumber, keyByNumber]
+      exact get_deleteOldRange_other _ bBlockHeadersByNumber lo hi _ (by decide) (by decide) (by decide)
+    · simp only [getBlobByNumber, keyBlockTransactions]
+      exact get_deleteOldRange_other _ bBlockTransactions lo hi _ (by decide) (by decide) (by decide)
+    · intro x
+      rw [get_deleteOldRange_prefixed _ _ (Or.inl rfl) lo hi n x (by omega) hh hn]
+      have : ¬ (lo ≤ n ∧ n ≤ hi) := by omega
+      simp [this]
+    · intro x
+      rw [get_deleteOldRange_prefixed _ _ (Or.inr rfl) lo hi n x (by omega) hh hn]
+      have : ¬ (lo ≤ n ∧ n ≤ hi) := by omega
+      simp [this]
+  · intro b' suf hb' h10 h11 h40
+    rw [get_deleteOldRange_other _ b' lo hi suf hb' h10 h11]
+    exact get_putAll_other _ _ _ (fun e he => hne40 b' suf e hb' h40 he)
+  · intro b suf hb
+    have e : (s.putAll (blobPuts D lo (hi + 1 - lo))).get (dbKey b suf) = s.get (dbKey b suf) := by
+      apply get_putAll_other
+      intro e he
+      rcases hb with rfl | rfl
+      · exact hne40 _ suf e (by decide) (by decide) he
+      · exact hne40 _ suf e (by decide) (by decide) he
+    rw [← e]
+    exact get_deleteOldRange_mono _ lo hi _
+
+theorem PassPost.comp {D : Nat → Option (List Bytes × List Bytes)} {s s1 s2 : Store} {lo e hi : Nat}
+    (h1 : PassPost D s s1 lo e) (h2 : PassPost D s1 s2 (e + 1) hi) (hle : lo ≤ e + 1) (heh : e ≤ hi)
+    (hhi : hi < 18446744073709551616) :
+    PassPost D s s2 lo hi := by
+  constructor
+  · intro n a b
+    by_cases hn : n ≤ e
+    · rw [(h2.same n (by omega) (Or.inl (by omega))).2.1]
+      exact h1.blob n a hn
+    · rw [h2.blob n (by omega) b]
+      cases newBlob D n with
+      | some b => rfl
+      | none => exact (h1.same n (by omega) (Or.inr (by omega))).2.1
+  · intro n a b bk hbk x
+    by_cases hn : n ≤ e
+    · have sm := h2.same n (by omega) (Or.inl (by omega))
+      rcases hbk with rfl | rfl
+      · rw [sm.2.2.1]; exact h1.gone n a hn _ (Or.inl rfl) x
+      · rw [sm.2.2.2]; exact h1.gone n a hn _ (Or.inr rfl) x
+    · exact h2.gone n (by omega) b bk hbk x
+  · intro n hn hout
+    exact (h1.same n hn (by omega)).trans (h2.same n hn (by omega))
+  · intro b' suf hb' h10 h11 h40
+    rw [h2.other b' suf hb' h10 h11 h40, h1.other b' suf hb' h10 h11 h40]
+  · intro b suf hb
+    rcases h2.mono b suf hb with h | h
+    · left; exact h
+    · rw [h]; exact h1.mono b suf hb
+
+/-- **One pass of the migration** (`migrateBlockRange`: ranges of `batchSize` blocks, each ingested
+and its old entries range-deleted) over ANY mix of blocks in the per-transaction layout and blocks
+already migrated: it succeeds, every old block gets the blob built from its raw items, every
+migrated block keeps its entry, the old prefixes of the range are empty, nothing else changes. -/
+theorem passLoop_spec (txCount : Bytes → Option Nat) (D : Nat → Option (List Bytes × List Bytes)) :
+    ∀ (k : Nat) (s : Store) (start h : Nat), h + 1 < 18446744073709551616 → (start ≤ h → (h - start) / 10 < k) →
+      (∀ m, start ≤ m → m ≤ h → BlockState txCount D s m) →
+      ∃ s', passLoop txCount s start h k = .ok s' ∧ PassPost D s s' start h
+  | 0, s, start, h, _, hk, _ => by
+    have hgt : h < start := by
+      by_cases hc : start ≤ h
+      · exact absurd (hk hc) (by omega)
+      · omega
+    exact ⟨s, rfl, ⟨fun n a b => by omega, fun n a b => by omega, fun n _ _ => SameBlock.refl s n,
+      fun _ _ _ _ _ _ => rfl, fun _ _ _ => Or.inr rfl⟩⟩
+  | k + 1, s, start, h, hh, hk, hst => by
+    by_cases hgt : start > h
+    · refine ⟨s, by simp [passLoop, hgt], ⟨fun n a b => by omega, fun n a b => by omega, fun n _ _ => SameBlock.refl s n,
+        fun _ _ _ _ _ _ => rfl, fun _ _ _ => Or.inr rfl⟩⟩
+    · have hle : start ≤ h := by omega
+      obtain ⟨e, hedef⟩ : ∃ e, e = min (start + batchSize - 1) h := ⟨_, rfl⟩
+      have he : e ≤ h := by rw [hedef]; exact Nat.min_le_right _ _
+      have he9 : e ≤ start + 9 := by
+        rw [hedef]; have := Nat.min_le_left (start + batchSize - 1) h; simp only [batchSize] at this ⊢; omega
+      have hs : start ≤ e := by rw [hedef]; simp [batchSize, Nat.le_min]; omega
+      have hcase : (e = start + 9 ∧ start + 9 < h) ∨ e = h := by
+        rw [hedef]
+        by_cases hl : start + batchSize - 1 < h
+        · left; simp only [batchSize] at hl ⊢; exact ⟨Nat.min_eq_left (by omega), by omega⟩
+        · right; exact Nat.min_eq_right (by omega)
+      have hr : ingestBlockRange txCount s start (min (start + batchSize - 1) h) =
+          .ok (deleteOldRange (s.putAll (blobPuts D start (e + 1 - start))) start e) := by
+        rw [← hedef]
+        simp only [ingestBlockRange]
+        rw [ingestFrom_state txCount D _ start s (by omega) (fun m h1 h2 => hst m h1 (by omega))]
+        rfl
+      have post := range_post txCount D s start e hs (by omega)
+      have hst1 : ∀ m, start + batchSize ≤ m → m ≤ h → BlockState txCount D
+          (deleteOldRange (s.putAll (blobPuts D start (e + 1 - start))) start e) m := by
+        intro m h1 h2
+        apply BlockState_congr txCount D s _ m _ (hst m (by simp only [batchSize] at h1; omega) h2)
+        apply post.same m (by omega)
+        right
+        simp only [batchSize] at h1
+        omega
+      obtain ⟨s', hrun, hpost⟩ := passLoop_spec txCount D k
+        (deleteOldRange (s.putAll (blobPuts D start (e + 1 - start))) start e)
+        (start + batchSize) h hh
+        (by intro hc; have := hk hle; simp only [batchSize] at hc ⊢; omega) hst1
+      refine ⟨s', by simp only [passLoop, hgt, if_false, hr, Res.bind]; exact hrun, ?_⟩
+      rcases hcase with ⟨he1, hlt⟩ | he2
+      · have hb : start + batchSize = e + 1 := by simp only [batchSize]; omega
+        rw [hb] at hpost
+        exact post.comp hpost (by omega) (by omega) (by omega)
+      · -- the remaining call starts above the height: it returns its store unchanged
+        have hpost' : PassPost D (deleteOldRange (s.putAll (blobPuts D start (e + 1 - start))) start e) s' (e + 1) h :=
+          ⟨fun n a b => by omega, fun n a b => by omega,
+            fun n hn hout => hpost.same n hn (by simp only [batchSize]; omega),
+            hpost.other, hpost.mono⟩
+        exact post.comp hpost' (by omega) (by omega) (by omega)
+
+/-! ### the whole migration -/
+
+theorem scan_congr (s s' : Store) (p : Bytes) (h : ∀ k, isPrefix p k = true → s'.get k = s.get k) : s'.scan p = s.scan p := by
+  apply scan_unique s' p (s.scan p) (scan_sorted s p)
+  intro k v
+  rw [mem_scan]
+  constructor
+  · rintro ⟨h1, h2⟩; exact ⟨h1, by rw [h k h1]; exact h2⟩
+  · rintro ⟨h1, h2⟩; exact ⟨h1, by rw [← h k h1]; exact h2⟩
+
+theorem scan_empty (s : Store) (p : Bytes) (h : ∀ k, isPrefix p k = true → s.get k = none) : s.scan p = [] := by
+  apply scan_unique s p [] (by simp)
+  intro k v
+  constructor
+  · intro hm; simp at hm
+  · rintro ⟨h1, h2⟩; rw [h k h1] at h2; exact absurd h2 (by simp)
+
+theorem isPrefix_bucket (b : Nat) (k : Bytes) (h : isPrefix [UInt8.ofNat b] k = true) : ∃ suf, k = dbKey b suf := by
+  obtain ⟨x, rfl⟩ := isPrefix_iff_append _ _ h
+  exact ⟨x, rfl⟩
+
+theorem firstNumberIn_empty (s : Store) (b : Nat) (h : ∀ suf, s.get (dbKey b suf) = none) : firstNumberIn s b = .ok none := by
+  have : s.scan [UInt8.ofNat b] = [] := by
+    apply scan_empty
+    intro k hk
+    obtain ⟨suf, rfl⟩ := isPrefix_bucket b k hk
+    exact h suf
+  simp [firstNumberIn, this]
+
+theorem get_wipeBucket_self (s : Store) (b : Nat) (suf : Bytes) (hb : b + 1 < 256) : (wipeBucket s b).get (dbKey b suf) = none := by
+  rw [wipeBucket, get_delRange]
+  have t1 := u8_toNat_ofNat b (by omega)
+  have t3 := u8_toNat_ofNat (b + 1) hb
+  have : (bytesLeq [UInt8.ofNat b] (dbKey b suf) && bytesLt (dbKey b suf) [UInt8.ofNat (b + 1)]) = true := by
+    simp only [dbKey, bytesLeq, bytesLt, t1, t3, bytesLt_nil_right]
+    simp
+  rw [this]
+  rfl
+
+/-- `backfillEmptyBlocks` over the blocks `n, n+1, …`: every block that has no combined entry has a
+header whose (projected) transaction count is 0. All of them end with a combined entry — the one
+they had, or the empty blob — and nothing else changes. -/
+theorem backfillFrom_spec (txCountP : Bytes → Option Nat) : ∀ (k n : Nat) (s : Store), n + k ≤ 18446744073709551616 →
+    (∀ m, n ≤ m → m < n + k → (getBlobByNumber s m).isSome = true ∨
+      ∃ hb, getHeaderByNumber s m = some hb ∧ txCountP hb = some 0) →
+    ∃ s', backfillFrom txCountP s n k = .ok s' ∧
+      (∀ m, n ≤ m → m < n + k → getBlobByNumber s' m = (match getBlobByNumber s m with | some b => some b | none => some emptyBlob)) ∧
+      (∀ key, (∀ m, n ≤ m → m < n + k → key ≠ keyBlockTransactions m) → s'.get key = s.get key)
+  | 0, n, s, _, _ => ⟨s, rfl, fun m a b => by omega, fun _ _ => rfl⟩
+  | k + 1, n, s, hb, h => by
+    rcases hbl : getBlobByNumber s n with _ | blob
+    · -- no combined entry: the header says 0 transactions, the empty blob is written
+      rcases h n (by omega) (by omega) with h0 | ⟨hdr, h1, h2⟩
+      · rw [hbl] at h0; exact absurd h0 (by simp)
+      · have hstep : ∀ m, n + 1 ≤ m → m < n + 1 + k →
+            getBlobByNumber (s.put (keyBlockTransactions n) emptyBlob) m = getBlobByNumber s m ∧
+            getHeaderByNumber (s.put (keyBlockTransactions n) emptyBlob) m = getHeaderByNumber s m := by
+          intro m a b
+          constructor
+          · simp only [getBlobByNumber, get_put]
+            have : keyBlockTransactions n ≠ keyBlockTransactions m := fun e => by
+              have := keyBlockTransactions_inj n m (by omega) (by omega) e; omega
+            simp [this]
+          · simp only [getHeaderByNumber, get_put]
+            have : keyBlockTransactions n ≠ keyByNumber bBlockHeadersByNumber m := by
+              simp [keyBlockTransactions, keyByNumber, dbKey, bBlockTransactions, bBlockHeadersByNumber]
+            simp [this]
+        obtain ⟨s', hr, hblobs, hother⟩ := backfillFrom_spec txCountP k (n + 1) (s.put (keyBlockTransactions n) emptyBlob) (by omega)
+          (by
+            intro m a b
+            rw [(hstep m a b).1, (hstep m a b).2]
+            exact h m (by omega) (by omega))
+        refine ⟨s', by simp [backfillFrom, hbl, h1, h2]; exact hr, ?_, ?_⟩
+        · intro m a b
+          by_cases hm : m = n
+          · subst hm
+            rw [hbl]
+            have := hother (keyBlockTransactions m) (fun m' a' b' e => by
+              have := keyBlockTransactions_inj m m' (by omega) (by omega) e; omega)
+            simp only [getBlobByNumber, this, get_put]
+            simp
+          · rw [hblobs m (by omega) (by omega), (hstep m (by omega) (by omega)).1]
+        · intro key hk
+          rw [hother key (fun m a b => hk m (by omega) (by omega)), get_put]
+          have : keyBlockTransactions n ≠ key := fun e => hk n (by omega) (by omega) e.symm
+          simp [this]
+    · obtain ⟨s', hr, hblobs, hother⟩ := backfillFrom_spec txCountP k (n + 1) s (by omega) (fun m a b => h m (by omega) (by omega))
+      refine ⟨s', by simp [backfillFrom, hbl]; exact hr, ?_, ?_⟩
+      · intro m a b
+        by_cases hm : m = n
+        · subst hm
+          rw [hbl]
+          have := hother (keyBlockTransactions m) (fun m' a' b' e => by
+            have := keyBlockTransactions_inj m m' (by omega) (by omega) e; omega)
+          simp only [getBlobByNumber] at hbl ⊢
+          rw [this, hbl]
+        · exact hblobs m (by omega) (by omega)
+      · intro key hk
+        exact hother key (fun m a b => hk m (by omega) (by omega))
+
+theorem oldestRetained_congr (s s' : Store) (h : ∀ suf, s'.get (dbKey bBlockCommitments suf) = s.get (dbKey bBlockCommitments suf)) :
+    oldestRetained s' = oldestRetained s := by
+  have : s'.scan [UInt8.ofNat bBlockCommitments] = s.scan [UInt8.ofNat bBlockCommitments] := by
+    apply scan_congr
+    intro k hk
+    obtain ⟨suf, rfl⟩ := isPrefix_bucket _ k hk
+    exact h suf
+  simp [oldestRetained, this]
+
+theorem newBlob_none_iff (D : Nat → Option (List Bytes × List Bytes)) (n : Nat) : newBlob D n = none ↔ D n = none := by
+  simp [newBlob]
+
+/-- **The whole upgrade** (`Migrator.Migrate` after the chain height is read): a database whose
+blocks `first … h` are each either in the per-transaction layout (header count = number of stored
+entries) or already migrated, whose old buckets hold nothing outside those blocks, and whose
+earlier retained blocks `o … first-1` have a combined entry or an empty header. Two turns of the
+loop: the pass rewrites `first … h`, the second turn finds the old buckets empty, back-fills the
+empty blocks below `first` and clears the old buckets. Result: every old block's combined entry is
+the blob of its raw items, migrated blocks keep theirs, blocks without transactions get the empty
+blob, the old buckets are empty and EVERY OTHER BUCKET IS UNTOUCHED. -/
+theorem btLoop_spec (txCount txCountP : Bytes → Option Nat) (D : Nat → Option (List Bytes × List Bytes)) (s : Store)
+    (first h o fuel : Nat) (oo : Option Nat) (hfuel : 2 ≤ fuel) (hh : h + 1 < 18446744073709551616) (hfh : first ≤ h)
+    (hof : o ≤ first) (hfirst : firstBlockToMigrate s = .ok (some first))
+    (hold : oldestRetained s = .ok oo) (ho : oo.getD 0 = o)
+    (hst : ∀ m, first ≤ m → m ≤ h → BlockState txCount D s m)
+    (hcover : ∀ b suf, (b = bTxsByNumIdx ∨ b = bRcsByNumIdx) → s.get (dbKey b suf) ≠ none →
+      ∃ n x, first ≤ n ∧ n ≤ h ∧ dbKey b suf = prefixNum b n ++ x)
+    (hlow : ∀ m, o ≤ m → m < first → (getBlobByNumber s m).isSome = true ∨
+      ∃ hb, getHeaderByNumber s m = some hb ∧ txCountP hb = some 0) :
+    ∃ s', btLoop txCount txCountP s h fuel = .ok s' ∧
+      (∀ n, first ≤ n → n ≤ h → getBlobByNumber s' n = (match newBlob D n with | some b => some b | none => getBlobByNumber s n)) ∧
+      (∀ n, o ≤ n → n < first → getBlobByNumber s' n = (match getBlobByNumber s n with | some b => some b | none => some emptyBlob)) ∧
+      (∀ b suf, (b = bTxsByNumIdx ∨ b = bRcsByNumIdx) → s'.get (dbKey b suf) = none) ∧
+      (∀ b' suf, b' < 256 → b' ≠ bTxsByNumIdx → b' ≠ bRcsByNumIdx → b' ≠ bBlockTransactions →
+        s'.get (dbKey b' suf) = s.get (dbKey b' suf)) := by
+  obtain ⟨f1, rfl⟩ : ∃ f1, fuel = f1 + 2 := ⟨fuel - 2, by omega⟩
+  -- turn 1: the pass
+  obtain ⟨s1, hpass, post⟩ := passLoop_spec txCount D ((h - first) / batchSize + 1) s first h hh
+    (by intro _; simp only [batchSize]; omega) hst
+  -- the old buckets are empty afterwards
+  have hgone : ∀ b suf, (b = bTxsByNumIdx ∨ b = bRcsByNumIdx) → s1.get (dbKey b suf) = none := by
+    intro b suf hb
+    rcases post.mono b suf hb with hn | he
+    · exact hn
+    · by_cases hs : s.get (dbKey b suf) = none
+      · rw [he]; exact hs
+      · obtain ⟨n, x, h1, h2, hk⟩ := hcover b suf hb hs
+        rw [hk]
+        exact post.gone n h1 h2 b hb x
+  have hf1 : firstBlockToMigrate s1 = .ok none := by
+    simp [firstBlockToMigrate, firstNumberIn_empty s1 _ (fun suf => hgone _ suf (Or.inl rfl)),
+      firstNumberIn_empty s1 _ (fun suf => hgone _ suf (Or.inr rfl)), Res.bind]
+  -- turn 2: back-fill from the oldest retained block
+  have hold1 : oldestRetained s1 = .ok oo := by
+    rw [oldestRetained_congr s s1 (fun suf => post.other _ suf (by decide) (by decide) (by decide) (by decide))]
+    exact hold
+  obtain ⟨s2, hback, hblobs, hother⟩ := backfillFrom_spec txCountP (h + 1 - o) o s1 (by omega)
+    (by
+      intro m a b
+      by_cases hm : m < first
+      · have sm := post.same m (by omega) (Or.inl hm)
+        rw [sm.2.1, sm.1]
+        exact hlow m a hm
+      · left
+        rw [post.blob m (by omega) (by omega)]
+        cases hb : newBlob D m with
+        | some b => rfl
+        | none =>
+          obtain ⟨_, _, _, _, _, h4⟩ := hst m (by omega) (by omega)
+          rw [(newBlob_none_iff D m).mp hb] at h4
+          exact h4.2.2)
+  refine ⟨clearOldBuckets s2, ?_, ?_, ?_, ?_, ?_⟩
+  · have hnf : ¬ first > h := by omega
+    simp only [btLoop, hfirst, Res.bind, hnf, if_false, migratePass, hpass, hf1, backfillEmptyBlocks, hold1, ho, hback, Res.map]
+  · intro n a b
+    have e1 : getBlobByNumber (clearOldBuckets s2) n = getBlobByNumber s2 n := by
+      simp only [getBlobByNumber, clearOldBuckets, keyBlockTransactions]
+      rw [get_wipeBucket_other _ bRcsByNumIdx bBlockTransactions _ (by decide) (by decide) (by decide),
+        get_wipeBucket_other _ bTxsByNumIdx bBlockTransactions _ (by decide) (by decide) (by decide)]
+    rw [e1, hblobs n (by omega) (by omega), post.blob n a b]
+    cases hb : newBlob D n with
+    | some b => rfl
+    | none =>
+      obtain ⟨_, _, _, _, _, h4⟩ := hst n a b
+      rw [(newBlob_none_iff D n).mp hb] at h4
+      obtain ⟨blob, hbl⟩ := Option.isSome_iff_exists.mp h4.2.2
+      simp [hbl]
+  · intro n a b
+    have e1 : getBlobByNumber (clearOldBuckets s2) n = getBlobByNumber s2 n := by
+      simp only [getBlobByNumber, clearOldBuckets, keyBlockTransactions]
+      rw [get_wipeBucket_other _ bRcsByNumIdx bBlockTransactions _ (by decide) (by decide) (by decide),
+        get_wipeBucket_other _ bTxsByNumIdx bBlockTransactions _ (by decide) (by decide) (by decide)]
+    rw [e1, hblobs n (by omega) (by omega), (post.same n (by omega) (Or.inl b)).2.1]
+  · intro b suf hb
+    simp only [clearOldBuckets]
+    rcases hb with rfl | rfl
+    · rw [get_wipeBucket_other _ bRcsByNumIdx bTxsByNumIdx _ (by decide) (by decide) (by decide)]
+      exact get_wipeBucket_self _ _ _ (by decide)
+    · exact get_wipeBucket_self _ _ _ (by decide)
+  · intro b' suf hb' h10 h11 h40
+    simp only [clearOldBuckets]
+    rw [get_wipeBucket_other _ bRcsByNumIdx b' _ (by decide) hb' (fun e => h11 e.symm),
+      get_wipeBucket_other _ bTxsByNumIdx b' _ (by decide) hb' (fun e => h10 e.symm),
+      hother _ (fun m _ _ e => by
+        simp only [keyBlockTransactions, dbKey, List.cons.injEq] at e
+        have := congrArg UInt8.toNat e.1
+        rw [u8_toNat_ofNat _ hb', u8_toNat_ofNat _ (by decide)] at this
+        exact h40 this),
+      post.other b' suf hb' h10 h11 h40]
+
+/-! ### concrete stores (for the non-vacuity examples): everything by `decide` -/
+
+theorem get_some_mem : ∀ (s : Store) (k v : Bytes), s.get k = some v → (k, v) ∈ s
+  | [], _, _, h => by simp [Store.get] at h
+  | (k', v') :: rest, k, v, h => by
+    simp only [Store.get] at h
+    by_cases hk : (k' == k) = true
+    · simp only [hk, if_true, Option.some.injEq] at h
+      have : k' = k := by simpa using hk
+      subst this; subst h
+      exact List.mem_cons_self ..
+    · have hk' : (k' == k) = false := by simpa using hk
+      simp only [hk'] at h
+      exact List.mem_cons_of_mem _ (get_some_mem rest k v h)
+
+theorem get_of_mem_nodup : ∀ (s : Store) (k v : Bytes), (s.map (·.1)).Nodup → (k, v) ∈ s → s.get k = some v
+  | [], _, _, _, h => by simp at h
+  | (k', v') :: rest, k, v, hnd, hm => by
+    simp only [List.map_cons, List.nodup_cons] at hnd
+    rcases List.mem_cons.mp hm with h | h
+    · simp only [Prod.mk.injEq] at h
+      obtain ⟨rfl, rfl⟩ := h
+      simp [Store.get]
+    · have hne : k' ≠ k := by
+        intro e; subst e
+        exact hnd.1 (List.mem_map.mpr ⟨(k', v), h, rfl⟩)
+      have : (k' == k) = false := by simpa using hne
+      simp only [Store.get, this]
+      exact get_of_mem_nodup rest k v hnd.2 h
+
+theorem scan_concrete (s : Store) (p : Bytes) (l : List (Bytes × Bytes)) (hnd : (s.map (·.1)).Nodup)
+    (hs : l.Pairwise (fun a b => bytesLt a.1 b.1 = true))
+    (h1 : ∀ e ∈ l, e ∈ s ∧ isPrefix p e.1 = true) (h2 : ∀ e ∈ s, isPrefix p e.1 = true → e ∈ l) : s.scan p = l := by
+  apply scan_unique s p l hs
+  intro k v
+  constructor
+  · intro hm
+    exact ⟨(h1 _ hm).2, get_of_mem_nodup s k v hnd (h1 _ hm).1⟩
+  · rintro ⟨hp, hg⟩
+    exact h2 _ (get_some_mem s k v hg) hp
+
+theorem OldItems_concrete (s : Store) (b n : Nat) (vals : List Bytes)
+    (h1 : ∀ i (hi : i < vals.length), s.get (keyNumIdx b n i) = some vals[i])
+    (h2 : ∀ e ∈ s, isPrefix (prefixNum b n) e.1 = true → ∃ i, i < vals.length ∧ e.1 = keyNumIdx b n i) : OldItems s b n vals := by
+  refine ⟨h1, ?_⟩
+  intro k hp hg
+  obtain ⟨v, hv⟩ := Option.ne_none_iff_exists'.mp hg
+  exact h2 _ (get_some_mem s k v hv) hp
+
 end Juno.C07
